@@ -24,31 +24,47 @@ def children (cs : Classes) (h : Heap) (v : Val) : List Val :=
     match h[a]? with
     | some (.dict c es) =>
       es.filterMap (fun e => if isA cs c "RDict" && isBad e.1 then none else some e.2)
-    | some (.list c xs) => if isA cs c "RList" then xs.takeWhile (fun v => v != Val.str "boom") else xs
-    | some (.tuple _ xs) => xs
+    -- a class registered by the user: the items as its `iterate` handler yields them
+    | some (.list c xs) =>
+      if (clsInfo cs c).reg == "off" then []
+      else if (clsInfo cs c).reg == "rev" then xs.reverse
+      else if isA cs c "RList" then xs.takeWhile (fun v => v != Val.str "boom") else xs
+    | some (.tuple c xs) =>
+      if (clsInfo cs c).reg == "off" then []
+      else if (clsInfo cs c).reg == "rev" then xs.reverse else xs
     | some (.set _ xs) => xs
     | some (.inst c as) =>
       as.filterMap (fun p => if isA cs c "RObj" && isBad (.str p.1) then none else some p.2)
     | none => []
   | _ => []
 
-/-- breadth-first traversal of the object graph from a queue of values; `seen` are the containers
-    already expanded.  Total for every heap by the same measure as the model's loop. -/
-def bfs (cs : Classes) (h : Heap) (queue : List Val) (seen : List Nat) : List Val :=
+/-- breadth-first traversal of an object graph from a queue of values, for **any** function `kids`
+    giving the children of a value (over `n` addresses); `seen` are the containers already expanded.
+    Total for every graph by the same measure as the model's loop. -/
+def bfsG (n : Nat) (kids : Val → List Val) (queue : List Val) (seen : List Nat) : List Val :=
   match queue with
   | [] => []
   | .ref a :: q =>
-    if hs : seen.contains a then .ref a :: bfs cs h q seen
-    else if ha : a < h.length then .ref a :: bfs cs h (q ++ children cs h (.ref a)) (a :: seen)
-    else .ref a :: bfs cs h q seen
-  | v :: q => v :: bfs cs h q seen
-termination_by (unseen h seen, queue.length)
+    if hs : seen.contains a then .ref a :: bfsG n kids q seen
+    else if ha : a < n then .ref a :: bfsG n kids (q ++ kids (.ref a)) (a :: seen)
+    else .ref a :: bfsG n kids q seen
+  | v :: q => v :: bfsG n kids q seen
+termination_by (unseenN n seen, queue.length)
 decreasing_by
   all_goals simp_wf
   · exact Prod.Lex.right _ (by omega)
-  · exact Prod.Lex.left _ _ (unseen_lt h seen a ha (by simpa using hs))
+  · exact Prod.Lex.left _ _ (unseenN_lt n seen a ha (by simpa using hs))
   · exact Prod.Lex.right _ (by omega)
   · exact Prod.Lex.right _ (by omega)
+
+/-- breadth-first traversal of the heap's object graph (children as the default registry
+    enumerates them) -/
+def bfs (cs : Classes) (h : Heap) (queue : List Val) (seen : List Nat) : List Val :=
+  bfsG h.length (children cs h) queue seen
+
+/-- `**` for any `kids`: the value itself, then breadth-first all its descendants -/
+def descendG (n : Nat) (kids : Val → List Val) (v : Val) : List Val :=
+  v :: bfsG n kids (kids v) (match v with | .ref a => [a] | _ => [])
 
 /-- `**`: the value itself, then breadth-first all its descendants; each container is expanded
     once, every reference to it is an entry -/
@@ -195,18 +211,26 @@ def checkC14 (cs : Classes) (h : Heap) (steps : List (String × Val)) (mutn : Op
 
 /-! ### well-formedness of a case -/
 
+/-- the registrations the model knows -/
+def regOK (r : String) : Bool := r == "" || r == "rev" || r == "off"
+
+/-- attribute names are pairwise distinct (a `__dict__` cannot hold a name twice) -/
+def distinctNames : List (String × Val) → Bool
+  | [] => true
+  | p :: r => !(r.any (fun q => q.1 == p.1)) && distinctNames r
+
 /-- every key of a dict cell finds its own value (keys are hashable and pairwise distinct under
     Python's `==`), every attribute name of an instance cell finds its own value, attribute
     objects have a `__dict__` -/
 def cellOK (cs : Classes) (h : Heap) : Obj → Bool
-  | .dict c es => isA cs c "dict" &&
+  | .dict c es => isA cs c "dict" && (clsInfo cs c).reg == "" &&
       es.all (fun e => e.1.hashable h && dictLookup es e.1 == some e.2)
-  | .inst c as => (clsInfo cs c).hasDict && !(isA cs c "dict") && !(isA cs c "list") &&
+  | .inst c as => (clsInfo cs c).hasDict && (clsInfo cs c).reg == "" && !(isA cs c "dict") && !(isA cs c "list") &&
       !(isA cs c "tuple") && !(isA cs c "set") && !(isA cs c "frozenset") &&
-      as.all (fun p => (as.find? (·.1 == p.1)).map (·.2) == some p.2)
-  | .list c _ => isA cs c "list" && !(isA cs c "dict")
-  | .tuple c _ => isA cs c "tuple" && !(isA cs c "dict") && !(isA cs c "list")
-  | .set c _ => (clsInfo cs c).iterable && (isA cs c "set" || isA cs c "frozenset") &&
+      as.all (fun p => (as.find? (·.1 == p.1)).map (·.2) == some p.2) && distinctNames as
+  | .list c _ => isA cs c "list" && !(isA cs c "dict") && regOK (clsInfo cs c).reg
+  | .tuple c _ => isA cs c "tuple" && !(isA cs c "dict") && !(isA cs c "list") && regOK (clsInfo cs c).reg
+  | .set c _ => (clsInfo cs c).iterable && (clsInfo cs c).reg == "" && (isA cs c "set" || isA cs c "frozenset") &&
       !(isA cs c "dict") && !(isA cs c "list") && !(isA cs c "tuple")
 
 def heapWF (cs : Classes) (h : Heap) : Bool := h.all (cellOK cs h)
